@@ -277,6 +277,28 @@ def selection(ctx, p):
             oksa = ('ge', 'sum_of_weights', 1) in g and '_dist' in src and '_gen' in src
     ctx.ob('C19.R4.sample-range', 'get_random_move', oksa and base in (0, 1),
            'the sample is <random> %% sum_of_weights%s, computed only when the sum is positive' % ('' if not base else ' + %d' % base), site=r.loc())
+    # the random source spans far more than any possible sum (sum is an int): default-constructed distribution or explicit [0, >= INT_MAX]
+    srcs = []
+    for f in p.funcs.values():
+        if f.cls == E + 'PolyglotBook':
+            for i in f.d.get('inits', []):
+                if i.get('field') == '_dist' and i.get('init') is not None:
+                    a = [const_of(strip_casts(x)) for x in kids(i['init'])]
+                    srcs.append((f, a))
+    # the only non-constructor use is the draw `_dist(_gen)`; an assignment or param() call would change the range
+    wr = []
+    for g, x, k in p.field_accesses(E + 'PolyglotBook', '_dist'):
+        if k == 'ctorinit':
+            continue
+        par = g.parent(x)
+        while par is not None and par['k'] in ('ImplicitCastExpr', 'MemberExpr'):
+            par = g.parent(par)
+        if not (par is not None and par['k'] == 'CXXOperatorCallExpr' and par.get('op') == '()'):
+            wr.append((g, x))
+    oksrc = bool(srcs) and not wr and all(a == [] or (len(a) == 2 and a[0] == 0 and a[1] is not None and a[1] >= 2 ** 31 - 1) for f, a in srcs)
+    ctx.ob('C19.R4.source-range', '_dist', oksrc,
+           'the distribution feeding the sample is default-constructed (full range) or spans [0, >= INT_MAX], so `%% sum` can reach every value '
+           'below any sum of 16-bit weights (%s)' % [a for f, a in srcs], site='engine/polyglot.cpp')
     zero = [x for x in r.all_nodes() if x['k'] == 'ReturnStmt' and cn(r, kids(x)[0]) == 'NO_MOVE']
     okz = len(zero) == 1 and ('le', 'sum_of_weights', 0) in facts_atoms(r, guard_facts(r, zero[0]))
     ctx.ob('C19.R4.all-zero', 'get_random_move', okz, 'when no record has positive weight no book move is offered (NO_MOVE)', site=r.loc())
